@@ -12,7 +12,7 @@ families of element types the property names: unsigned integers (MIN = 0), signe
 from fractions import Fraction as F
 
 from .facts import ds
-from .terms import Kernel, Unrecognised
+from .terms import Kernel, TypedKernel, Unrecognised
 from .rules_terms import fn_term, show
 
 FAMILIES = ("unsigned", "signed", "float")
@@ -34,20 +34,6 @@ def rshow(t):
     if k == "neg":
         return "-%s" % rshow(t[1])
     return show(t)
-
-
-class TypedKernel(Kernel):
-    """keeps the numeric conversions that Kernel treats as identities"""
-    KEEP = ("to_f64", "from_f64", "to_f32", "from_f32")
-
-    def term(self, e, depth=0):
-        e2 = ds(e)
-        if isinstance(e2, tuple) and e2[0] == "call" and e2[1] in self.KEEP and e2[3]:
-            lf = self.leaf(e2)
-            if lf is not None:
-                return lf
-            return ("conv", e2[1], self.term(e2[3][0], depth + 1))
-        return Kernel.term(self, e, depth)
 
 
 # ---- linear forms over {lo, hi, 1}
